@@ -23,7 +23,7 @@ RULE = ("per generated cooler/option vector one HISTORY of executions of the rea
 ASSUMPTIONS = ["`cooler balance --ignore-dist D` ignores max(--ignore-diags, ceil(D/binsize)) diagonals (every diagonal "
                "that can hold contacts closer than D bp)",
                "if any run of a history stops with var within 1e-6 of tol, iteration counts may differ by one: that history "
-               "is inconclusive", "x0 is copied per run (balance_cooler mutates it)"]
+               "is inconclusive", "the same x0 array object is passed to every run of a history"]
 MIN_NONTRIVIAL = {"quick": 120, "thorough": 1200}
 REQUIRED_PROBES = ["pipe_reduce"]
 REQUIRED_FEATURES = ["map:builtin", "map:eager", "map:reverse-ordered", "map:unordered-permuted", "map:bursty-unordered",
@@ -164,7 +164,9 @@ def one_history(ctx, shard, i, rng, idx):
                         pool = mp.Pool(int([2, 3, 4][int(rng.integers(3))]))
                     meth = {"pool.map": pool.map, "pool.imap": pool.imap, "pool.imap_unordered": pool.imap_unordered}[mname]
                     m = sched.pool_map_tagged(meth, ctx.seed * 100 + k, pool_log, max_ms=2.0)
-                kw = {kk: (v.copy() if isinstance(v, np.ndarray) else v) for kk, v in opts.items()}
+                # the SAME option objects (x0 array, blacklist) go into every run of the history: a run may not
+                # leave anything behind in its arguments that changes the next one (F35: x0 was used as the work array)
+                kw = dict(opts)
                 bias, stats = cooler.balance_cooler(clr, chunksize=cs, map=m, **kw)
                 evs = probes.collect_worker_events(ctx)
                 npass = check_passes(c, evs, nnz, f"{mname} cs={cs}", cis_ranges if mode == "cis" else None)
